@@ -62,17 +62,19 @@ Definition ents_load (es : list entry) (k : key) (t : N) : option entry := find 
 Fixpoint first_some {A B} (f : A -> option B) (l : list A) : option B :=
   match l with [] => None | x :: r => match f x with Some y => Some y | None => first_some f r end end.
 
-(* level0.sort_by_key(biggest_timestamp) (stable), then iterated in reverse *)
+(* Version::load: level0.sort_by_key(|md| md.biggest_timestamp) - a STABLE ascending sort - then
+   iterated in reverse.  isort_by folds from the right and inserts x (which preceded everything
+   already inserted) BEFORE the elements that are not smaller, so files that tie on
+   biggest_timestamp keep their order in L0, exactly as the stable sort leaves them; the reverse
+   then consults the LATER of two tying files first.  The model agrees with the Rust on ties
+   (they can exist: a reopen may find two L0 files cut from one batch). *)
 Fixpoint insert_by (m : file -> N) (x : file) (l : list file) : list file :=
   match l with
   | [] => [x]
-  | y :: r => if m y <=? m x then y :: insert_by m x r else x :: l
+  | y :: r => if m y <? m x then y :: insert_by m x r else x :: l
   end.
 Fixpoint isort_by (m : file -> N) (l : list file) : list file :=
   match l with [] => [] | x :: r => insert_by m x (isort_by m r) end.
-(* NB: inserting x *after* equal elements while folding from the right is not Rust's stable
-   order for ties; files of L0 never tie on biggest_timestamp (distinct sequence numbers), and
-   the check reports a tie as outside the model. *)
 Definition l0_order (l0 : level) : list file := rev (isort_by biggest_ts l0).
 
 Definition lookup_files (v : version) (k : key) : list file :=
@@ -95,10 +97,19 @@ Definition load (s : store) (k : key) (t : N) : option entry :=
 Definition get (s : store) (k : key) : option (list N) :=
   match load s k (seq s) with Some e => ev e | None => None end.
 
-(* KeyValueStore::write: one fresh sequence number for the whole batch *)
+(* KeyValueStore::write: one fresh sequence number for the whole batch.  Every entry of a batch
+   gets the same timestamp, so the store first keeps the LAST write to each key (the `seen`/`keep`
+   loop: walk the batch from the back, keep an entry iff its key was not seen yet, retain in the
+   original order): an entry stays iff no LATER entry of the batch names its key. *)
+Fixpoint dedup_last (b : list (key * option (list N))) : list (key * option (list N)) :=
+  match b with
+  | [] => []
+  | kv :: r => if existsb (fun kv' => key_eqb (fst kv') (fst kv)) r then dedup_last r
+               else kv :: dedup_last r
+  end.
 Definition write (s : store) (batch : list (key * option (list N))) : store :=
   let n := seq s + 1 in
-  mkS (rev (map (fun kv => mkE (fst kv) n (snd kv)) batch) ++ mem s) (ver s) n.
+  mkS (rev (map (fun kv => mkE (fst kv) n (snd kv)) (dedup_last batch)) ++ mem s) (ver s) n.
 
 (* sorting entries as the skiplist / builders hold them: key ascending, timestamp descending *)
 Definition entry_leb (a b : entry) : bool :=
